@@ -122,19 +122,21 @@ func (exec *BatchExecutor) Route(op kmip.Operation, hdl OperationHandler) {
 //   - This function does not return errors directly. If an error occurs during middleware or request handling,
 //     the error is converted into a KMIP error response message.
 func (exec *BatchExecutor) HandleRequest(ctx context.Context, req *kmip.RequestMessage) *kmip.ResponseMessage {
-	i := 0
-	var next Next
-	next = func(ctx context.Context, rm *kmip.RequestMessage) (*kmip.ResponseMessage, error) {
-		if i < len(exec.middlewares) {
-			mdl := exec.middlewares[i]
-			i++
-			return mdl(next, ctx, req)
+	// chain(i) is the continuation handed to the middleware at position i-1: it runs the middlewares
+	// from position i onward, then the core request handler. The position is bound to each continuation
+	// (not shared between them), so every invocation of a continuation runs all the inner middlewares.
+	var chain func(i int) Next
+	chain = func(i int) Next {
+		return func(ctx context.Context, rm *kmip.RequestMessage) (*kmip.ResponseMessage, error) {
+			if i < len(exec.middlewares) {
+				return exec.middlewares[i](chain(i+1), ctx, req)
+			}
+			return exec.handleRequest(ctx, req)
 		}
-		return exec.handleRequest(ctx, req)
 	}
 
 	ctx = newBatchContext(ctx, req.Header)
-	resp, err := next(ctx, req)
+	resp, err := chain(0)(ctx, req)
 
 	if err != nil {
 		return exec.handleMessageError(ctx, req, err)
